@@ -29,6 +29,12 @@ CLAIMS["C02"] = dict(text="bounded symbolic model checking: every gate decomposi
                     "D/S/R/BS), with free parameters bound to symbolic reals and evaluated by the real par_evaluate/lambdify path, compiled by "
                     "the real Compiler.decompose and executed on the real Gaussian backend from an ARBITRARY symbolic state, equals the documented "
                     "transformation for all parameter values, both dagger flags and several target orders", design_ref="5/C02")
+CLAIMS["C03"] = dict(text="bounded symbolic model checking: (a) the merge rule of every one-mode-mergeable and two-mode gate/channel/preparation "
+                    "family, run on symbolic parameters with all dagger combinations (its own equality tests fork), gives an operation whose action "
+                    "on an ARBITRARY symbolic state equals the composition, or None only for a true identity; (b) Program.optimize on every command "
+                    "sequence up to the length bound over an alphabet with daggers, channels, preparations, two-mode gates and gates depending on a "
+                    "measured parameter leaves the same final state (shared symbolic measurement outcomes) and does not touch the original",
+                    design_ref="5/C03")
 NA_DEFAULT = "check not built yet in this session (plan: DESIGN.md section 5)"
 NA = {}
 
